@@ -316,7 +316,7 @@ def _chunk_worker(payload):
     return out
 
 
-def parallel_map(module, fn_name, args, workers=None, timeout=120, chunk=None):
+def parallel_map(module, fn_name, args, workers=None, timeout=120, chunk=None, keep_errors=False):
     """Map ``module.fn_name`` over ``args``, each call in its own forked child.
 
     Results come back in argument order, so they do not depend on the number
@@ -341,9 +341,10 @@ def parallel_map(module, fn_name, args, workers=None, timeout=120, chunk=None):
                 raise HarnessError('worker pool timed out')
             except concurrent.futures.process.BrokenProcessPool as e:
                 raise HarnessError(f'worker died: {e}')
-    for r in results:
-        if isinstance(r, dict) and 'harness_error' in r:
-            raise HarnessError(r['harness_error'])
+    if not keep_errors:
+        for r in results:
+            if isinstance(r, dict) and 'harness_error' in r:
+                raise HarnessError(r['harness_error'])
     return results
 
 
